@@ -2,11 +2,12 @@ package main
 
 import (
 	"fmt"
-	"os"
 	"go/constant"
 	"go/token"
 	"go/types"
 	"math/big"
+	"os"
+	"path/filepath"
 	"regexp"
 	"sort"
 	"strconv"
@@ -26,10 +27,10 @@ type Loc struct {
 
 // Val is the engine-side value of an SSA value.
 type Val struct {
-	T      Term    // scalar
-	Loc    *Loc    // pointer to scalar
-	Elems  []*Val  // tuple, or slice header {ptr,len}
-	Flat   []Term  // aggregate value (struct/array) as flattened leaves
+	T      Term   // scalar
+	Loc    *Loc   // pointer to scalar
+	Elems  []*Val // tuple, or slice header {ptr,len}
+	Flat   []Term // aggregate value (struct/array) as flattened leaves
 	Kind   valKind
 	GoType types.Type
 }
@@ -75,39 +76,40 @@ type writeRec struct {
 
 type FuncVC struct {
 	*Gen
-	fn       *ssa.Function
-	fc       *FuncContract
-	name     string
-	vals     map[ssa.Value]*Val
-	reach    map[*ssa.BasicBlock]Term
-	out      map[*ssa.BasicBlock]*State
-	edges    map[[2]int]Term
-	obls     []*Obligation
-	params   map[string]SVal
-	callOrd  map[string]int
-	unsup    []string
-	nonnil   map[ssa.Value]bool
-	writes   []writeRec
-	retOrd   int
-	loopOrd  map[*ssa.BasicBlock]int
-	loopBody map[*ssa.BasicBlock]map[*ssa.BasicBlock]bool
-	backEdge map[[2]int]bool
-	headerSt map[*ssa.BasicBlock]*loopHead
+	fn           *ssa.Function
+	fc           *FuncContract
+	name         string
+	vals         map[ssa.Value]*Val
+	reach        map[*ssa.BasicBlock]Term
+	out          map[*ssa.BasicBlock]*State
+	edges        map[[2]int]Term
+	obls         []*Obligation
+	params       map[string]SVal
+	callOrd      map[string]int
+	unsup        []string
+	noTerm       []string // loops with neither a measure nor an error-exit obligation
+	nonnil       map[ssa.Value]bool
+	writes       []writeRec
+	retOrd       int
+	loopOrd      map[*ssa.BasicBlock]int
+	loopBody     map[*ssa.BasicBlock]map[*ssa.BasicBlock]bool
+	backEdge     map[[2]int]bool
+	headerSt     map[*ssa.BasicBlock]*loopHead
 	uncontracted map[string]bool
 	trustedUsed  map[string]bool
 	discovery    int
-	ordCount map[string]int
-	localDone map[string]bool
-	assertsSeen map[string]bool
-	allocs    map[string]*Val // address-taken locals by source name
-	defBlock  map[string]*ssa.BasicBlock // block in which a named local was (last) bound
-	curBlock  *ssa.BasicBlock
-	localNames map[string]bool
-	dcalls    []*delegCall
-	sites     []string
-	siteOrd   map[*ssa.Call]int // ordinal of a call among the calls to the same callee, in source order
-	debugVals map[string]SVal // most recent value bound to a source-level local (go/ssa debug info)
-	bindings  map[string][]binding // all bindings of source-level locals, by defining block
+	ordCount     map[string]int
+	localDone    map[string]bool
+	assertsSeen  map[string]bool
+	allocs       map[string]*Val            // address-taken locals by source name
+	defBlock     map[string]*ssa.BasicBlock // block in which a named local was (last) bound
+	curBlock     *ssa.BasicBlock
+	localNames   map[string]bool
+	dcalls       []*delegCall
+	sites        []string
+	siteOrd      map[*ssa.Call]int    // ordinal of a call among the calls to the same callee, in source order
+	debugVals    map[string]SVal      // most recent value bound to a source-level local (go/ssa debug info)
+	bindings     map[string][]binding // all bindings of source-level locals, by defining block
 }
 
 type loopHead struct {
@@ -557,6 +559,10 @@ func (vc *FuncVC) analyseCFG() []*ssa.BasicBlock {
 	sort.Slice(headers, func(i, j int) bool { return headers[i].Index < headers[j].Index })
 	for i, h := range headers {
 		vc.loopOrd[h] = i + 1
+		if vc.fc != nil && vc.fc.Decr[i+1] == nil && vc.fc.ErrExit[i+1] == nil {
+			pos := vc.W.prog.Fset.Position(h.Instrs[0].Pos())
+			vc.noTerm = append(vc.noTerm, fmt.Sprintf("%s loop %d (%s:%d)", vc.name, i+1, filepath.Base(pos.Filename), pos.Line))
+		}
 	}
 	// reverse post-order over forward edges
 	seen := map[*ssa.BasicBlock]bool{}
@@ -622,14 +628,14 @@ func maxFreshIn(s string) int {
 }
 
 type snapshot struct {
-	nbind                                                 map[string]int
-	allocs                                                map[string]*Val
+	nbind                                                  map[string]int
+	allocs                                                 map[string]*Val
 	nfacts, ndecls, nfresh, nobls, nwrites, nunsup, nnotes int
-	vals                                                  map[ssa.Value]*Val
-	declared                                              map[string]bool
-	touched                                               map[string]bool
-	ordCount                                              map[string]int
-	callOrd                                               map[string]int
+	vals                                                   map[ssa.Value]*Val
+	declared                                               map[string]bool
+	touched                                                map[string]bool
+	ordCount                                               map[string]int
+	callOrd                                                map[string]int
 }
 
 func (vc *FuncVC) snap() *snapshot {
